@@ -489,9 +489,13 @@ type Options struct {
 
 // NewCache instantiates a new cache. Load it from the given path if it exists.
 func NewCache(options Options) (Cache, error) {
+	// Clean the path, in particular strip any trailing separator: with one
+	// os.Lstat() resolves the last component, hiding a symbolic link from
+	// the checks below.
+	cacheDir := filepath.Clean(options.CacheDir)
 	cch := &cache{
-		filePath:   filepath.Join(options.CacheDir, "cache"),
-		dataDir:    filepath.Join(options.CacheDir, "containers"),
+		filePath:   filepath.Join(cacheDir, "cache"),
+		dataDir:    filepath.Join(cacheDir, "containers"),
 		Pods:       make(map[string]*pod),
 		Containers: make(map[string]*container),
 		NextID:     1,
@@ -503,7 +507,7 @@ func NewCache(options Options) (Cache, error) {
 	if _, err := cch.checkPerm("cache", cch.filePath, false, cacheFilePerm); err != nil {
 		return nil, cacheError("refusing to use existing cache file: %v", err)
 	}
-	if err := cch.mkdirAll("cache", options.CacheDir, cacheDirPerm); err != nil {
+	if err := cch.mkdirAll("cache", cacheDir, cacheDirPerm); err != nil {
 		return nil, err
 	}
 	if err := cch.mkdirAll("container", cch.dataDir, dataDirPerm); err != nil {
